@@ -53,6 +53,13 @@ add("C07", "exploration",
     "property-based testing (rapid): exact-arithmetic rounding oracle + independent decoder",
     "DESIGN.md C07")
 
+
+add("C08", "fault_enumeration",
+    "A stated corruption set is enumerated over a corpus of valid encodings (17 shapes x 4 coordinate types in WKB x 3 byte-order patterns, TWKB x 4 header sets, WKT, GeoJSON + Feature + FeatureCollection): every truncation, every byte substitution (all 256 values at header/count/type bytes, boundary values elsewhere), every count field overwritten with boundary counts in both byte orders, every TWKB varint overwritten with 2^k / 2^64-1 / overlong, every WKT token deleted/duplicated/swapped and every numeral replaced by hostile numerals, every GeoJSON node replaced by 15 values or deleted - about 3.3 million inputs, all of them in the thorough tier, a rotating 1/7 in quick - plus rapid-generated arbitrary bytes, plausible headers with random tails, multi-edits, generated structures with overwritten counts and deep nesting. Every input goes through every decoder entry point of its format; contract: error xor geometry, no panic, no process death (shards run under ulimit -v 4 GiB and journal the in-flight input), heap allocation <= 1 MiB + 2048 x len(input), validating decoders only return geometries that pass Validate, every returned geometry re-encodes in all four formats without panic. Thorough adds native go fuzzing of the four decoders seeded with the corpus.",
+    "Trusted: Go runtime allocation counters (cheap counter + precise re-measurement of candidates), the driver's death detection. Slow inputs are not violations. The enumerated set is complete only for the stated corpus and fault list.",
+    "fault enumeration over a corpus + property-based/random search (rapid) + native fuzzing (thorough)",
+    "DESIGN.md C08")
+
 NOT_YET = "check not built yet in this session (build in progress; see DESIGN.md section 7)"
 manifest = dict(
     version=1,
